@@ -39,7 +39,12 @@ def free_network(draw, tier):
                     jd[v][t] = draw(st.integers(0, 2))
     style = draw(st.sampled_from(["plain", "odd"]))
     names = [f"{i + 2}-clique" if style == "plain" else f"top/{i}-x" for i in range(T)]
-    return {"free": True, "n": n, "names": names, "edges": edges, "jd": jd}
+    return {"free": True, "n": n, "names": names, "edges": edges, "jd": jd,
+            # vertex ids need not be 0..n-1 in insertion order; annotations may be tuples or lists
+            "labels": draw(st.sampled_from(["id", "id", "perm", "offset", "str"])),
+            "perm": list(draw(st.permutations(list(range(n))))),
+            "insert": draw(st.sampled_from(["nodes_first", "by_edges"])),
+            "jd_type": draw(st.sampled_from(["tuple", "tuple", "list"]))}
 
 
 def strategy(tier):
@@ -56,12 +61,20 @@ def build(case):
     net = case["net"]
     if net.get("free"):
         G = nx.Graph()
-        for v in range(net["n"]):
-            G.add_node(v)
-            G.nodes[v][NN.JOINT_DEGREE] = tuple(net["jd"][v])
+        kind = net.get("labels", "id")
+        perm = net.get("perm") or list(range(net["n"]))
+        lab = {"id": lambda v: v, "perm": lambda v: perm[v], "offset": lambda v: 4 * perm[v] + 3,
+               "str": lambda v: f"v{perm[v]}"}[kind]
+        conv = list if net.get("jd_type") == "list" else tuple
+        if net.get("insert") != "by_edges":
+            for v in range(net["n"]):
+                G.add_node(lab(v))
         for u, v, t in net["edges"]:
-            G.add_edge(u, v)
-            G.edges[u, v][NN.TOPOLOGY] = net["names"][t]
+            G.add_edge(lab(u), lab(v))
+            G.edges[lab(u), lab(v)][NN.TOPOLOGY] = net["names"][t]
+        for v in range(net["n"]):
+            G.add_node(lab(v))
+            G.nodes[lab(v)][NN.JOINT_DEGREE] = conv(net["jd"][v])
         return G, list(net["names"])
     G, _ = NC.build_graph(net)
     return G, NC.names(net)
@@ -159,5 +172,9 @@ def check(case):
     compare_matrix(ov, wo, "overall")
     if case["net"].get("free"):
         classes.add("free_annotations")
+        if case["net"].get("labels", "id") != "id" or case["net"].get("insert") == "by_edges":
+            classes.add("labels_not_in_insertion_order")
+        if case["net"].get("jd_type") == "list":
+            classes.add("list_annotations")
     classes.add(f"r{case['r']}")
     return {"nontrivial": "ge2_excess_classes" in classes and case["r"] >= 2, "classes": sorted(classes)}
